@@ -21,6 +21,8 @@ TxtClause(c) ==
   ELSE IF c.text # EncodeTxt(c.items) THEN "C19_TxtEncoding"
   ELSE IF ~SameItems(NormSeq(DecodeTxt(c.text)), Norm(c.items)) THEN "C19_TxtIndependentDecode"
   ELSE IF ~SameItems(NormSeq(c.props), Norm(c.items)) THEN "C19_TxtLibraryDecode"
+  \* the description that was given the dictionary reads it back the same way: bytes keys and values, same items
+  ELSE IF ~c.obytes \/ ~SameItems(NormSeq(c.oprops), Norm(c.items)) THEN "C19_TxtLibraryDecode"
   ELSE ""
 
 Clause(c) == IF c.kind = "name" THEN NameClause(c) ELSE TxtClause(c)
